@@ -83,6 +83,12 @@ let () =
         List.iteri (fun n t ->
           cur := run_some (nat_of_int n) (List.filter (fun k -> not (List.mem k lost)) (tkeys t)) !cur) !cur.tasks;
         Printf.printf "F\t%s\t%s\t%d\n" !id (str_of_keys (List.map fst !cur.store)) 0
+      | ["T"] ->
+        (* the kill table of the model (Locks/Kill.v [interruptible]) under the client's command-type names *)
+        let names = [CGet, "Get"; CPessLock, "PessimisticLock"; CPrewrite, "Prewrite"; CHeartBeat, "TxnHeartBeat";
+                     CCheckTxnStatus, "CheckTxnStatus"; CResolveLock, "ResolveLock"; CPessRollback, "PessimisticRollback";
+                     CBatchRollback, "BatchRollback"; CCommit, "Commit"] in
+        print_endline ("T\ttable\t" ^ String.concat "\t" (List.map (fun (c, n) -> n ^ "=" ^ (if interruptible c then "1" else "0")) names))
       | [] | [""] -> ()
       | _ -> print_endline ("BAD\t" ^ line)
     with e -> print_endline ("EXC\t" ^ !id ^ "\t" ^ Printexc.to_string e ^ "\t" ^ line))
